@@ -347,7 +347,7 @@ func TestProp(t *testing.T) {
 	}
 	// exhaustive core 1: one loop x every collection kind x length 0..4 x form x variable name
 	// (fresh / shadows a root scalar / shadows the collection itself) x root kind x v-else x v-if x tag
-	core1(each("core1"))
+	core1(run.Thorough(), each("core1"))
 	if ok {
 		rec.Exhaustive(fmt.Sprintf("core1: single loop, every sequence kind x lengths x forms x shadowing names x root kinds x v-else separators x v-if x element/template (%d cases)", n))
 	}
